@@ -43,8 +43,13 @@ Offered(ctx, kind, sc, declared, self) ==
                          /\ (kind = "fixture" => n # self)
                          /\ (kind = "fixture" => Fix[n].scope >= sc) }
 
-VARIABLES role, kind, fscope, declared, stacked
-vars == <<role, kind, fscope, declared, stacked>>
+\* how the already declared parameters are spelled: plain, positional-only (`a, /`), keyword-only (`*, a`), annotated, defaulted
+PStyles == {"plain", "posonly", "kwonly", "annotated", "default"}
+\* which document is being edited: a test module, or the workspace PLUGIN module itself (its own fixtures are then
+\* same-file fixtures and rank first, although they carry the plugin flag)
+Hosts == {"test", "plugin"}
+VARIABLES role, kind, fscope, declared, stacked, pstyle, host
+vars == <<role, kind, fscope, declared, stacked, pstyle, host>>
 Init == /\ role \in Roles /\ kind \in Kinds /\ fscope \in 0..4
         /\ declared \in {{}, {"c_fun"}, {"c_mod", "local_fx"}}
         /\ (kind # "fixture" => fscope = 0)
@@ -54,13 +59,17 @@ Init == /\ role \in Roles /\ kind \in Kinds /\ fscope \in 0..4
         /\ (role \in {"inc_open_paren", "inc_usefixtures_open"} => declared = {})      \* nothing typed after the paren yet
         /\ (role \in {"module_level", "fixture_decorator", "class_header", "after_body_module_level", "pytestmark_line"}
               => (kind = "test" /\ declared = {}))
+        /\ host \in Hosts
+        /\ (host = "plugin" => declared = {} /\ ~stacked /\ role \in {"def_line", "body_stmt"} /\ kind # "helper")
+        /\ pstyle \in PStyles
+        /\ (pstyle # "plain" => declared # {} /\ ~stacked /\ role \in {"def_line", "body_stmt", "body_blank", "sig_end", "method_body"} /\ kind # "helper")
 Next == UNCHANGED vars
 Spec == Init /\ [][Next]_vars
 
 Self == "local_ses"      \* when a fixture is edited it is this one, re-scoped to `scope`
 Expect == LET c == Ctx(role, kind) IN
           [ctx |-> c, offered |-> Offered(c, kind, fscope, declared, Self),
-           order |-> [n \in Names |-> Fix[n].origin]]
+           order |-> [n \in Names |-> IF host = "plugin" /\ n \in {"wp_fx", "tp_fx"} THEN 0 ELSE Fix[n].origin]]
 
 \* the offered set never contains a declared parameter, the edited fixture or (inside a fixture) a narrower scope
 OfferedSound ==
@@ -69,5 +78,6 @@ OfferedSound ==
         /\ o \cap declared = {}
         /\ (kind = "fixture" => Self \notin o /\ \A n \in o : Fix[n].scope >= fscope)
 NoneOutside == Expect.ctx = "none" => Expect.offered = {}
-EmitCase == PrintT("CASE " \o ToJson([role |-> role, kind |-> kind, scope |-> fscope, declared |-> declared, stacked |-> stacked, expect |-> Expect]))
+EmitCase == PrintT("CASE " \o ToJson([role |-> role, kind |-> kind, scope |-> fscope, declared |-> declared, stacked |-> stacked,
+                                     pstyle |-> pstyle, host |-> host, expect |-> Expect]))
 =============================================================================
